@@ -1559,17 +1559,23 @@ class C03R(PropOracle):
             got.setdefault(r["name"], []).append(classify(r["return_code"], r["status"]))
         # everything that did not succeed was rerun (flags failed+missing), so the final outcome is the reference
         # evaluation of the whole graph with the exit codes of the second run
-        codes2 = {}
+        codes1, codes2 = {}, {}
         for n, c_ in w.scen["exit_codes"].items():
+            codes1[n] = c_[0] if isinstance(c_, (list, tuple)) else c_
             codes2[n] = c_[min(1, len(c_) - 1)] if isinstance(c_, (list, tuple)) else c_
-        ref = reference(w.scen["jobs"], codes2)
+        ref1 = reference(w.scen["jobs"], codes1)
+        rerun = dependents_closure(w.scen["jobs"], {n for n, k in ref1.items() if k != "successful"})
+        # jobs that are not rerun keep their (successful) result; rerun jobs are evaluated with the second run's codes
+        ref = reference(w.scen["jobs"], {n: (codes2.get(n, 0) if n in rerun else 0) for n in ref1})
         for j in w.scen["jobs"]:
             n = j["name"]
             if got.get(n) != [ref[n]]:
                 self.v(w, f"after the resubmission job {n} has entries {got.get(n)} (missing_jobs={res.get('missing_jobs')}), expected one '{ref[n]}' entry",
                        "resubmission-result")
             ln = o.launch.get(n, 0)
-            if ref[n] == "canceled" and ln and n in (w.data.get("rerun_seen") or {n}):
+            if n not in rerun and ln and not w.scen.get("refuse_scripts"):
+                self.v(w, f"job {n} succeeded in the first run and depends on nothing that is rerun, but was started again", "resubmission-unselected-job-ran")
+            if ref[n] == "canceled" and ln:
                 self.v(w, f"job {n} must be canceled in the resubmitted run (a blocker failed again) but was started", "resubmission-canceled-job-ran")
         summ = res.get("results_summary", {})
         want = {k: sum(1 for v in ref.values() if v == k) for k in ("successful", "failed", "canceled")}
